@@ -44,8 +44,8 @@ CfgValue(pp, l) ==      \* stored value of a configuration object, for read-back
 \* mode INIT -> timers of the stack cleared -> NMT / SDO / SYNC re-initialised -> SYNC object re-read -> boot-up (PRE-OPERATIONAL)
 ResetCom(pp) == LET a == [pp EXCEPT !.mode = PREOP, !.td = [k \in 1..NT |-> Dyn0], !.sprod = 0]            \* COTmrClear + SYNC timer deleted
                     b == [a EXCEPT !.ta = [k \in 1..NT |-> OffT], !.ra = [k \in 1..NR |-> OffR], !.rb = [k \in 1..NR |-> <<>>]]   \* PDO tables are rebuilt on OPERATIONAL
-                IN [b EXCEPT !.sprod = IF b.sgen THEN b.scyc ELSE 0]                                          \* 1005h initialisation re-run
-ArmedP(pp) == (IF pp.sprod > 0 THEN 1 ELSE 0)
+                IN [b EXCEPT !.sprod = IF b.sgen THEN b.scyc ELSE 0, !.hbRem = b.hbT]                         \* 1005h / 1017h initialisation re-run
+ArmedP(pp) == (IF pp.sprod > 0 THEN 1 ELSE 0) + (IF pp.hbRem > 0 THEN 1 ELSE 0)
               + (IF pp.mode = OPER THEN Cardinality({k \in 1..NT : pp.td[k].inhRem > 0}) + Cardinality({k \in 1..NT : pp.td[k].evRem > 0}) ELSE 0)
 Apply(pp, l) ==
   CASE l[1] = "nmt" -> LET r == SetMode(pp, IF l[2] = 1 THEN OPER ELSE IF l[2] = 2 THEN STOP ELSE PREOP) IN
@@ -77,16 +77,21 @@ Apply(pp, l) ==
                          [ev |-> RdFrame(c.idx, c.sub), p |-> pp, x |-> IF SdoOK(pp.mode) THEN <<RdResp(c.idx, c.sub, c.bytes)>> ELSE <<CanRx(SdoRx)>>]
     \* NMT reset communication / node: written as the sequence of sub-operations of CONmtReset
     [] l[1] = "reset" -> [ev |-> <<"rx", 0, 2, l[2], NodeId, 0, 0, 0, 0, 0, 0>>, p |-> ResetCom(pp), x |-> << <<"free">> >>]
+    \* SDO write to 1017h: the period restarts from the write, 0 stops the producer
+    [] l[1] = "hbwr" -> IF ~SdoOK(pp.mode) THEN [ev |-> WrFrame(4119, 0, <<l[2], 0>>), p |-> pp, x |-> <<CanRx(SdoRx)>>]
+                        ELSE [ev |-> WrFrame(4119, 0, <<l[2], 0>>), p |-> [pp EXCEPT !.hbT = l[2], !.hbRem = l[2]], x |-> <<WrOk(4119, 0)>>]
     [] l[1] = "pool" -> [ev |-> <<"pool">>, p |-> pp, x |-> << <<"acts", PoolN - ArmedP(pp)>> >>]
     [] l[1] = "rd" -> LET o == l[2] IN
                       [ev |-> RdFrame(Objs[o].idx, Objs[o].sub), p |-> pp, x |-> IF SdoOK(pp.mode) THEN <<RdResp(Objs[o].idx, Objs[o].sub, pp.v[o])>> ELSE <<CanRx(SdoRx)>>]
+Hb0 == IF Len(Sync0) >= 4 THEN Sync0[4] ELSE 0        \* heartbeat producer time in ticks (optional 4th element of Sync0)
 P0 == [mode |-> PREOP, v |-> V0, tc |-> TC0, rc |-> RC0, ta |-> [k \in 1..NT |-> OffT], ra |-> [k \in 1..NR |-> OffR],
        td |-> [k \in 1..NT |-> Dyn0], rb |-> [k \in 1..NR |-> <<>>],
-       sid |-> Sync0[1], sgen |-> Sync0[2], scyc |-> Sync0[3] \div 1000, scycus |-> Sync0[3], sprod |-> IF Sync0[2] THEN Sync0[3] \div 1000 ELSE 0]
+       sid |-> Sync0[1], sgen |-> Sync0[2], scyc |-> Sync0[3] \div 1000, scycus |-> Sync0[3], sprod |-> IF Sync0[2] THEN Sync0[3] \div 1000 ELSE 0,
+       hbT |-> Hb0, hbRem |-> Hb0]
 View == p
 \* C20: reset = fresh start with the current dictionary values (PDOs inactive until OPERATIONAL, SYNC as 1005h/1006h say)
 FreshFromP(p0) == [P0 EXCEPT !.v = p0.v, !.tc = p0.tc, !.rc = p0.rc, !.sid = p0.sid, !.sgen = p0.sgen, !.scyc = p0.scyc, !.scycus = p0.scycus,
-                             !.sprod = IF p0.sgen THEN p0.scyc ELSE 0]
+                             !.sprod = IF p0.sgen THEN p0.scyc ELSE 0, !.hbT = p0.hbT, !.hbRem = p0.hbT]
 Rec(step) == /\ hist' = (IF Walk THEN Append(hist, step) ELSE <<step>>)
              /\ prev' = View
 \* ---- claims on the reference ----
@@ -105,6 +110,10 @@ StepOk(p0, l, a) ==
   \* C12: no transmission while the inhibit time runs
   /\ \A k \in 1..NT : (p0.mode = OPER /\ p0.ta[k].valid /\ p0.td[k].inhRem > 1 /\ l[1] \notin {"cfg", "nmt", "reset"}) => PdoFrames(a.x, p0.ta[k].id) = {}
   /\ (l[1] = "reset" => a.p = FreshFromP(p0))
+  \* C10: a heartbeat frame on a tick iff the producer's countdown expires on it, carrying the current state; nothing but a
+  \* write to 1017h or a reset touches the countdown
+  /\ (l[1] = "tick" => ((p0.hbRem = 1) <=> (\E j \in 1..Len(a.x) : a.x[j] = HbFrame(p0))))
+  /\ (l[1] \notin {"tick", "hbwr", "reset"} => (a.p.hbRem = p0.hbRem /\ a.p.hbT = p0.hbT))
 Do(l) == LET a == Apply(p, l) IN
          /\ p' = a.p /\ gh' = StepOk(p, l, a) /\ Rec(StepRec(a.ev, a.x))
 Init == p = P0 /\ hist = <<>> /\ prev = <<>> /\ gh = TRUE
